@@ -93,10 +93,20 @@ def r1(repo, res):
                 drops = True
     init = repo.func("sam::Sample.__init__")
     res.analysed(init)
-    called = {c.func.attr for c in calls_in(init) if isinstance(c.func, ast.Attribute)}
+    # what the constructor dispatches to, directly or through methods it delegates the dispatch to
+    reach = _self_methods_called(repo, init)
+    called = {c.func.attr for fn_ in reach for c in calls_in(fn_) if isinstance(c.func, ast.Attribute)}
     present = [l for l in LOADERS if l in called and repo.has_func(f"sam::Sample.{l}")]
     res.floor("C16.R1", "loaders dispatched by Sample.__init__", len(present), 5)
-    extra = sorted(x for x in called if x.startswith("_load_") and x not in LOADERS and x != "_load_cn_region")
+
+    def dispatcher(name):   # a `_load_*` method that only hands over to classified loaders is not a loader itself
+        ref = f"sam::Sample.{name}"
+        if not repo.has_func(ref):
+            return False
+        inner = {c.func.attr for c in calls_in(repo.func(ref)) if isinstance(c.func, ast.Attribute) and isinstance(c.func.value, ast.Name) and c.func.value.id == "self"}
+        return bool(inner & set(LOADERS)) and not _emits_insertion([repo.func(ref)])
+
+    extra = sorted(x for x in called if x.startswith("_load_") and x not in LOADERS and x != "_load_cn_region" and not dispatcher(x))
     if extra:
         res.err("C16.R1", f"unclassified loader(s) {extra}: classify in checks/c16.py before trusting R1")
     if not drops:
